@@ -190,6 +190,13 @@ func NewWorld(opts map[string]string) *World {
 
 func (w *World) Counts() map[string]int { return w.counts }
 
+// WrapCache replaces the node cache every tree of this world is configured with (before any tree exists)
+func (w *World) WrapCache(f func(mast.NodeCache) mast.NodeCache) {
+	if w.cache != nil {
+		w.cache = f(w.cache)
+	}
+}
+
 // map accessors: histories for the concurrency engine run operations of different trees from
 // different goroutines, so the harness's own bookkeeping is locked
 func (w *World) getTree(i int) *treeT         { w.mm.Lock(); defer w.mm.Unlock(); return w.Trees[i] }
